@@ -1,0 +1,35 @@
+//go:build verif
+
+package sstables
+
+import (
+	"github.com/thomasjungblut/go-sstables/recordio"
+	rProto "github.com/thomasjungblut/go-sstables/recordio/proto"
+)
+
+// VerifWriterWrap, when set, is called at the end of every successful SSTableStreamWriter.Open().
+// The verification harness uses it to wrap the writers of tables created deep inside flush and compaction.
+var VerifWriterWrap func(writer *SSTableStreamWriter)
+
+func verifWriterOpened(writer *SSTableStreamWriter) {
+	if VerifWriterWrap != nil {
+		VerifWriterWrap(writer)
+	}
+}
+
+// VerifWrapWriters replaces the data and/or index writer of an opened stream writer (fault injection).
+func (writer *SSTableStreamWriter) VerifWrapWriters(
+	data func(recordio.WriterI) recordio.WriterI,
+	index func(rProto.WriterI) rProto.WriterI) {
+	if data != nil {
+		writer.dataWriter = data(writer.dataWriter)
+	}
+	if index != nil {
+		writer.indexWriter = index(writer.indexWriter)
+	}
+}
+
+// VerifBasePath returns the directory the writer writes into.
+func (writer *SSTableStreamWriter) VerifBasePath() string {
+	return writer.opts.basePath
+}
